@@ -192,6 +192,50 @@ def run(ctx):
         raises = any(isinstance(x, ast.Raise) and x.exc is not None and "StateNotFoundError" in norm(x.exc) for st in lp.body for x in ast.walk(st))
         c.ob("R6", raises, f, "walk-missing-child-raises", "a segment that names no child raises StateNotFoundError" if raises else
              "the walk no longer raises StateNotFoundError for a segment that names no child", lp)
+    # ---- R7 target strategies: each spelling is resolved by its own strategy or rejected, never handed to the next one ----
+    def _ends(stmts):
+        """every path through *stmts* ends in return / raise"""
+        if not stmts:
+            return False
+        last = stmts[-1]
+        if isinstance(last, (ast.Return, ast.Raise)):
+            return True
+        if isinstance(last, ast.If):
+            return _ends(last.body) and _ends(last.orelse)
+        if isinstance(last, ast.Try):
+            return (_ends(last.body) or _ends(last.finalbody)) and all(_ends(h.body) for h in last.handlers) if not last.finalbody else _ends(last.finalbody) or (_ends(last.body) and all(_ends(h.body) for h in last.handlers))
+        if isinstance(last, (ast.While,)):
+            return isinstance(last.test, ast.Constant) and bool(last.test.value)
+        return False
+    rts = next((f for f in p.funcs_in("resolver") if f.name == "resolve_target_state"), None)
+    c.need(rts, "resolve_target_state in resolver.py")
+    tparam = rts.params[0]
+    strat = [x for x in rts.node.body if isinstance(x, ast.If) and tparam in norm(x.test) and ("startswith" in norm(x.test) or "==" in norm(x.test))]
+    if c.expect("R7", "spelling strategies of resolve_target_state", len(strat), 3, rts, "resolve_target_state no longer distinguishes the '#absolute', '.' and '.relative' spellings"):
+        for x in strat:
+            ok = _ends(x.body)
+            c.ob("R7", ok, rts, f"strategy-is-final:{norm(x.test)[:30]}", "a target of this spelling is resolved by its strategy or rejected" if ok else
+                 f"the strategy for '{norm(x.test)}' can complete without returning a state or raising: a target of that spelling that does not resolve is "
+                 f"handed on to the next strategy and silently resolves as something else (e.g. '#m.a.b' as the bare key), instead of StateNotFoundError", x)
+    ok = _ends(rts.node.body)
+    c.ob("R7", ok, rts, "resolver-never-falls-through", "every path of the resolver returns a state or raises" if ok else
+         "resolve_target_state can fall off its end (returning None): an unresolvable target is accepted", rts.node)
+    nonret = [x for x in own_nodes(rts.node) if isinstance(x, ast.Return) and (x.value is None or (isinstance(x.value, ast.Constant) and x.value.value is None))]
+    c.ob("R7", not nonret, rts, "resolver-never-returns-none", "the resolver never returns None" if not nonret else
+         "resolve_target_state returns None on some path: the caller treats it as 'no target' and the transition silently does something else", (nonret or [rts.node])[0])
+    # segments are validated before every walk
+    vs = next((f for f in p.funcs_in("resolver") if f.name == "_validate_segments"), None)
+    if vs is not None:
+        raises = [x for x in own_nodes(vs.node) if isinstance(x, ast.Raise)]
+        okv = any(any(not isinstance(a, ast.Constant) and pol for a, pol in guards_at(vs, x)) and not any(isinstance(a, ast.Constant) for a, pol in guards_at(vs, x)) for x in raises)
+        c.ob("R7", okv, vs, "empty-segment-rejected", "a target with an empty segment ('a..b', 'a.') is rejected" if okv else
+             "_validate_segments no longer raises for an empty path segment: 'a..b' / 'a.' resolve to something instead of StateNotFoundError", vs.node)
+        g_r = cfg_of(rts.node)
+        vcalls = [i for x in own_nodes(rts.node) if isinstance(x, ast.Call) and norm(x.func) == "_validate_segments" for i in cfg_node_of(rts, x)]
+        for x in [y for y in own_nodes(rts.node) if isinstance(y, ast.Call) and norm(y.func) == "_find_descendant"]:
+            okw = all(g_r.always_before(vcalls, i, follow_exc=False) for i in cfg_node_of(rts, x))
+            c.ob("R7", okw, rts, f"validated-before-walk:{norm(x)[:40]}", "the segments are validated before the walk" if okw else
+                 f"'{norm(x)}' is reachable without _validate_segments: an empty segment is looked up as a state key", x)
     # ---- R5 an unresolvable target is a StateNotFoundError in both engines -------------------------
     for v in VIEWS:
         r = roles(ctx, v)
